@@ -64,6 +64,7 @@ func c13(c *q.Ctx) {
 		c.Gate(gu, "Tx.SortUnconfirmedTx", q.ToSuccess(), q.Opt{})
 	}
 	poolGraph(c)
+	feeEveryTx(c)
 	su := c.Fn(txp + "(*Tx).SortUnconfirmedTx")
 	if su != nil {
 		// information necessity: anti-dependencies need the write sets
